@@ -357,8 +357,11 @@ def mon_req(events, steps, ends):
     """REQ: one offset/fetch request, one refetch timer, one commit request outstanding; last_committed_offset (read at
     the end of every step) = last value acknowledged by a commit reply / reported by an offset-fetch reply."""
     rk, tm, co, lc = None, False, None, NONE
+    ct = False            # REQ2 (Model/ConsumerLogC03.v): the commit-retry timer is armed
     for i, (ev, outs) in enumerate(zip(events, steps)):
         t = ev[0]
+        if t == EV_FIRE_COMMIT_RETRY:
+            ct = False
         if t == EV_REQ_OK and rk is not None:
             if rk == R_OFFREQ:
                 rk = None
@@ -393,9 +396,17 @@ def mon_req(events, steps, ends):
                 tm = True
             elif tag == OUT_CANCEL_TIMER and o[1] == T_RETRY:
                 tm = False
+            elif tag == OUT_SCHED and o[1] == T_COMMIT:
+                if ct or co is not None:
+                    return "step %d: the commit-retry timer is armed while %s" % (i, "it is already armed" if ct else "a commit request is in flight")
+                ct = True
+            elif tag == OUT_CANCEL_TIMER and o[1] == T_COMMIT:
+                ct = False
             elif tag == OUT_COMMIT:
                 if co is not None:
                     return "step %d: a second commit request is sent while one is in flight" % i
+                if ct:
+                    return "step %d: a commit request is sent while the commit-retry timer is armed" % i
                 co = (o[1],)
         if ends[i][1] != lc:
             return "step %d: last_committed_offset %r was never acknowledged / reported by the broker (expected %r)" % (i, ends[i][1], lc)
@@ -495,6 +506,7 @@ def mon_never_idle(events, steps):
         if t == EV_START and accepted and any(o[0] == OUT_RET for o in outs):
             alive = True
             rk, tm = None, False
+            pw.started()
         elif t in (EV_STOP, EV_SHUTDOWN):
             alive = False
         elif t in (EV_REQ_OK, EV_FETCH_OK, EV_REQ_FAIL) and accepted:
@@ -550,16 +562,29 @@ class ProcWindow(object):
         self.st = None          # None idle | ("api", blk, r) | ("pending", blk)
         self.lp = NONE          # last offset of the most recent successfully completed invocation
         self.D, self.done = [], []      # delivered / successfully completed, since the last start position
+        # Model/ConsumerLogC03.v, monitor PWB: an invocation was seen to fail since the last accepted start()
+        self.bad = False
+        # monitor C3: delivered / successfully completed since the last accepted start() (m_D, m_ok), ends of all
+        # successfully completed blocks of the run (m_ends)
+        self.D2, self.ok2, self.ends = [], [], []
 
     def finish(self, blk, r):
         if r == 0:
             self.lp = blk[-1]
             self.done = self.done + blk
+            self.ok2 = self.ok2 + blk
+            self.ends.append(blk[-1])
             self.st = None
         elif r in (2, 3):
             self.st = ("pending", blk)
         else:
             self.st = None
+            self.bad = True
+
+    def started(self):
+        """an accepted start(): the failure bit is cleared, the C3 epoch begins"""
+        self.bad = False
+        self.D2, self.ok2 = [], []
 
     def event(self, ev, accepted):
         t = ev[0]
@@ -571,6 +596,10 @@ class ProcWindow(object):
             if ev[1]:
                 self.lp = blk[-1]
                 self.done = self.done + blk
+                self.ok2 = self.ok2 + blk
+                self.ends.append(blk[-1])
+            else:
+                self.bad = True
 
     def epoch(self):
         self.D, self.done = [], []
@@ -582,12 +611,16 @@ class ProcWindow(object):
                 return "processor invoked while %s" % ("its previous invocation has not returned" if self.st[0] == "api"
                                                        else "the result of its previous invocation is pending")
             blk = list(o[2:])
+            late = self.bad
             self.D = self.D + blk
+            self.D2 = self.D2 + blk
             i, r = self.plan.pop(0) if self.plan else (0, 2)
             if i not in (1, 2, 3):            # it calls nothing back (1 stop(), 2 commit(), 3 shutdown())
                 self.finish(blk, r)
             else:
                 self.st = ("api", blk, r)
+            if late:
+                return "processor invoked with %r after an invocation failed (no accepted start() in between)" % (blk,)
         elif tag in (OUT_RET, OUT_RAISED) and self.st and self.st[0] == "api":
             _, blk, r = self.st
             self.finish(blk, r)
@@ -595,6 +628,7 @@ class ProcWindow(object):
             if not (self.st and self.st[0] == "pending"):
                 return "a processor Deferred is cancelled but none is pending"
             self.st = None
+            self.bad = True
         return None
 
 
@@ -608,6 +642,7 @@ def epoch_state(events, steps):
         accepted = not (outs and outs[0][0] == OUT_IGNORED)
         if ev[0] == EV_START and accepted and any(o[0] == OUT_RET for o in outs):
             pw.epoch()
+            pw.started()
             acked, allsent = [], []
         if ev[0] == EV_COMMIT_OK and accepted and sent is not None:
             acked.append(sent)
@@ -637,6 +672,7 @@ def mon_commit(events, steps, ends):
         accepted = not (outs and outs[0][0] == OUT_IGNORED)
         if ev[0] == EV_START and accepted and any(o[0] == OUT_RET for o in outs):
             pw.epoch()
+            pw.started()
         pw.event(ev, accepted)
         for o in outs:
             if o[0] in (OUT_OFFREQ, OUT_OFFFETCH):
@@ -648,6 +684,13 @@ def mon_commit(events, steps, ends):
                 if o[1] != pw.lp:
                     return ("step %d: commit request for offset %r, but the last successfully processed offset is %r"
                             % (i, o[1], pw.lp))
+                # monitor C3 (Model/ConsumerLogC03.v commit_ok): since the accepted start() the successfully processed
+                # messages are a prefix of the delivered ones, and the commit carries the last of them
+                if pw.D2[:len(pw.ok2)] != pw.ok2:
+                    return ("step %d: commit request for offset %r while a delivered message before a processed one is unprocessed: "
+                            "delivered %r..., processed %r..." % (i, o[1], pw.D2[:8], pw.ok2[:8]))
+                if pw.ok2 and o[1] != pw.ok2[-1]:
+                    return "step %d: commit request for offset %r, last message processed since start() is %r" % (i, o[1], pw.ok2[-1])
                 if pw.done and pw.done[-1] == o[1]:
                     late = [x for x in pw.D if x <= o[1] and x not in pw.done]
                     if late:
